@@ -36,6 +36,51 @@ def walk_monitor(expect):
     return mon
 
 
+def add_bypattern_suite(c, samples):
+    rng = c.rng
+    # 2. ByPattern on the replicated subscription state: histories leading to the same active set
+    ops, expect, cases = [], {}, 0
+    pats = ["mp/a", "mp/a/b", "mp/a/#", "mp/+/b", "mp/#", "mp/+", "mp/a//b", "mp//", "mp/a/+", "mq/a", "mq/#"]
+    tops = ["mp/a", "mp/a/b", "mp/b/b", "mp", "mp/", "mp/a//b", "mp//", "mq/a", "mp/a/b/c"]
+    for _ in range(150 if c.tier == "quick" else 3000):
+        ops.append("reset")
+        active = {}
+        for _ in range(rng.choice([2, 5, 9, 14])):
+            s, p = rng.choice(["s1", "s2", "s3"]), rng.choice(pats)
+            r = rng.random()
+            if r < 0.6:
+                q = rng.choice([0, 1, 2])
+                ops.append(f"subcreate 0 {s} {p} {q}")
+                active[(s, p)] = q
+            elif r < 0.85:
+                ops.append(f"subdelete 0 {s} {p}")
+                active.pop((s, p), None)
+            else:
+                ops.append(f"subdelsess 0 {s}")
+                for k in [k for k in active if k[0] == s]:
+                    active.pop(k)
+        # the same active set as seen by a peer that got the broadcasts (some twice: gossip echoes, full-state sync)
+        replica = rng.random() < 0.5
+        if replica:
+            ops += ["deliverall 0 1", "deliverall 0 1", "sync 0 1"]
+        for t in tops:
+            for node in ((0, 1) if replica else (0,)):
+                ops.append(f"byp {node} {t}")
+                expect[len(ops) - 1] = sorted(f"U,{s},{p},1,{q}" for (s, p), q in active.items() if mqtt_match(p.split("/"), t.split("/")))
+                cases += 1
+
+    def byp_mon(ops_, impl):
+        out = []
+        for i, exp in expect.items():
+            if not impl[i].startswith("["):
+                out.append((i, "panic", f"`{ops_[i]}` -> {impl[i]}"))
+            elif sorted(parse_list(impl[i])) != exp:
+                out.append((i, "wrong-recipients", f"`{ops_[i]}` = {impl[i]}, active subscriptions whose filter matches: {exp}"))
+        return out
+    c.run_suite(Suite("bypattern-histories", "dist", ops, byp_mon, {"cases": cases, "nontrivial": cases}, resets=("reset",)))
+    samples.append({"suite": "bypattern-histories", "ops": ops[:10]})
+
+
 def main(tier=None):
     c = Check("C01", ["Wasp.Properties.C01", "Wasp.Properties.E2E", "Wasp.Properties.E2EMulti", "Wasp.Properties.Reachable2"], tier)
     c.build()
@@ -110,47 +155,7 @@ def main(tier=None):
             expect[len(ops) - 1] = sorted(hexid(i) for i, f in enumerate(fl) if mqtt_match(f, t))
             cases += 1
     c.run_suite(Suite("trie-random-deep", "subtree", ops, walk_monitor(expect), {"cases": cases, "nontrivial": cases}))
-    # 2. ByPattern on the replicated subscription state: histories leading to the same active set
-    ops, expect, cases = [], {}, 0
-    pats = ["mp/a", "mp/a/b", "mp/a/#", "mp/+/b", "mp/#", "mp/+", "mp/a//b", "mp//", "mp/a/+", "mq/a", "mq/#"]
-    tops = ["mp/a", "mp/a/b", "mp/b/b", "mp", "mp/", "mp/a//b", "mp//", "mq/a", "mp/a/b/c"]
-    for _ in range(150 if c.tier == "quick" else 3000):
-        ops.append("reset")
-        active = {}
-        for _ in range(rng.choice([2, 5, 9, 14])):
-            s, p = rng.choice(["s1", "s2", "s3"]), rng.choice(pats)
-            r = rng.random()
-            if r < 0.6:
-                q = rng.choice([0, 1, 2])
-                ops.append(f"subcreate 0 {s} {p} {q}")
-                active[(s, p)] = q
-            elif r < 0.85:
-                ops.append(f"subdelete 0 {s} {p}")
-                active.pop((s, p), None)
-            else:
-                ops.append(f"subdelsess 0 {s}")
-                for k in [k for k in active if k[0] == s]:
-                    active.pop(k)
-        # the same active set as seen by a peer that got the broadcasts (some twice: gossip echoes, full-state sync)
-        replica = rng.random() < 0.5
-        if replica:
-            ops += ["deliverall 0 1", "deliverall 0 1", "sync 0 1"]
-        for t in tops:
-            for node in ((0, 1) if replica else (0,)):
-                ops.append(f"byp {node} {t}")
-                expect[len(ops) - 1] = sorted(f"U,{s},{p},1,{q}" for (s, p), q in active.items() if mqtt_match(p.split("/"), t.split("/")))
-                cases += 1
-
-    def byp_mon(ops_, impl):
-        out = []
-        for i, exp in expect.items():
-            if not impl[i].startswith("["):
-                out.append((i, "panic", f"`{ops_[i]}` -> {impl[i]}"))
-            elif sorted(parse_list(impl[i])) != exp:
-                out.append((i, "wrong-recipients", f"`{ops_[i]}` = {impl[i]}, active subscriptions whose filter matches: {exp}"))
-        return out
-    c.run_suite(Suite("bypattern-histories", "dist", ops, byp_mon, {"cases": cases, "nontrivial": cases}, resets=("reset",)))
-    samples.append({"suite": "bypattern-histories", "ops": ops[:10]})
+    add_bypattern_suite(c, samples)
     from checks import brokerlib
     brokerlib.add_c01_suites(c, samples)
     return c.finish(samples=samples,
